@@ -27,7 +27,60 @@ fn bad(vs: &mut Vec<Violation>, ty: &str, what: &str, a: &dyn Debug, b: &dyn Deb
     vs.push(Violation { prop: "C20", pred: "P-fwd", msg: format!("{} on Cc<{}> for ({:?}, {:?}) gives {:?}, on the values it gives {:?}", what, ty, a, b, got, want) });
 }
 
+/// A sink that accepts `limit` bytes and then fails: formatting through it is interrupted at that point
+struct Limited {
+    limit: usize,
+    got: String,
+}
+impl std::fmt::Write for Limited {
+    fn write_str(&mut self, s: &str) -> std::fmt::Result {
+        if self.got.len() + s.len() > self.limit {
+            return Err(std::fmt::Error);
+        }
+        self.got.push_str(s);
+        Ok(())
+    }
+}
+
+/// Debug formatting interrupted by a failing writer at every possible output position, with plain, alternate, hex
+/// and padded flags: what reached the sink and the result must be those of T - and so must every *later* formatting
+/// of the same pointer and of its clone.
+fn interrupted_debug<T: Trace + Clone + Debug + 'static>(ty: &str, a: &T, st: &mut FwdStats, vs: &mut Vec<Violation>) {
+    use std::fmt::Write;
+    let ca = Cc::new(a.clone());
+    let cl = ca.clone();
+    let full = format!("{:#?}", a).len().max(format!("{:>14?}", a).len());
+    for limit in 0..=full {
+        for style in 0..4 {
+            st.evaluations += 1;
+            let (mut wc, mut wt) = (Limited { limit, got: String::new() }, Limited { limit, got: String::new() });
+            let (rc, rt) = match style {
+                0 => (write!(wc, "{:?}", ca), write!(wt, "{:?}", a)),
+                1 => (write!(wc, "{:#?}", ca), write!(wt, "{:#?}", a)),
+                2 => (write!(wc, "{:x?}", ca), write!(wt, "{:x?}", a)),
+                _ => (write!(wc, "{:>14?}", ca), write!(wt, "{:>14?}", a)),
+            };
+            if rc.is_ok() != rt.is_ok() || wc.got != wt.got {
+                bad(vs, ty, &format!("Debug into a sink that fails after {} bytes", limit), a, a, &wc.got, &wt.got);
+                return;
+            }
+            st.distinct_outcomes.insert(format!("{}:interrupted:{}", ty, rc.is_ok()));
+            // formatting again (the same pointer, its clone) is unaffected by the interrupted attempt
+            if format!("{:?}", ca) != format!("{:?}", a) || format!("{:#?}", cl) != format!("{:#?}", a) || format!("{:x?}|{:>14?}", cl, ca) != format!("{:x?}|{:>14?}", a, a) {
+                bad(vs, ty, &format!("Debug after an attempt that failed after {} bytes", limit), a, a, &format!("{:?}", ca), &format!("{:?}", a));
+                return;
+            }
+        }
+    }
+}
+
 fn partial<T: Trace + Clone + PartialOrd + Debug + 'static>(ty: &str, vals: &[T], st: &mut FwdStats, vs: &mut Vec<Violation>) {
+    for a in vals {
+        interrupted_debug(ty, a, st, vs);
+        for a2 in vals.iter().take(1) {
+            let _ = a2;
+        }
+    }
     for a in vals {
         for b in vals {
             st.pairs += 1;
